@@ -9,6 +9,9 @@
 EXTENDS Integers, Sequences, FiniteSets, TLC, Json
 CONSTANT MaxLen
 VARIABLE x
+\* Equal is element-wise ==: with elements that are not equal to themselves (a float NaN - the model value 2 stands
+\* for it when the runner instantiates the slices with floats) a slice is not even equal to itself
+EqNaN(a, b) == Len(a) = Len(b) /\ \A i \in 1..Len(a) : a[i] = b[i] /\ a[i] # 2
 Emit(c) == PrintT(ToJson(c))
 RECURSIVE SeqsUpTo(_, _)
 SeqsUpTo(A, n) == IF n = 0 THEN {<<>>}
@@ -39,7 +42,7 @@ IndexDef(s, e) == IF e \in ElemSet(s) THEN (CHOOSE i \in 1..Len(s) : s[i] = e /\
 RemoveDef(s, i) == IF i < 0 \/ i >= Len(s) THEN <<s, 0, FALSE>> ELSE <<SubSeq(s, 1, i) \o SubSeq(s, i + 2, Len(s)), s[i + 1], TRUE>>
 
 TwoCases == \A s1 \in Slices : \A s2 \in Short :
-    Emit([fn |-> "two", s |-> s1, a |-> <<s2>>, out |-> [diff |-> DiffDef(s1, s2), inter |-> InterDef(s1, s2), equal |-> (s1 = s2)]])
+    Emit([fn |-> "two", s |-> s1, a |-> <<s2>>, out |-> [diff |-> DiffDef(s1, s2), inter |-> InterDef(s1, s2), equal |-> (s1 = s2), equalnan |-> EqNaN(s1, s2)]])
 OneCases == \A s \in Slices :
     Emit([fn |-> "one", s |-> s, a |-> <<>>, out |-> [unique |-> UniqueDef(s), uniquekey |-> UniqueKeyDef(s), filter |-> FilterDef(s),
                                                      index |-> [e \in 1..4 |-> IndexDef(s, e)]]])
